@@ -563,7 +563,10 @@ class Recorder(object):
     def apply_auto_removes(dm):
       if rec.snaps is not None and rec.mid is None:
         rec.mid = projection(dm._engine)
-      return rec.o_ar(dm)
+      ret = rec.o_ar(dm)
+      if ret and rec.snaps is not None:
+        rec.rounds += 1
+      return ret
 
     import summary
     if not hasattr(summary.SummaryActions, 'update_summary_section'):
@@ -594,11 +597,12 @@ class Recorder(object):
 
   def run(self, e, bundle):
     """Applies the bundle; returns (out, snaps, mid, final) -- snaps[i] is the state before action i."""
-    self.snaps, self.mid, self.regroups = [], None, []
+    self.snaps, self.mid, self.regroups, self.rounds = [], None, [], 0
     try:
       out = G().apply(e, bundle)
       snaps, mid = self.snaps, self.mid
       self.last_regroups = self.regroups
+      self.last_rounds = self.rounds
     finally:
       self.snaps, self.mid, self.regroups = None, None, None
     final = projection(e)
@@ -756,6 +760,9 @@ def translate(a, P, Q, names, rgs=()):
       cur = dict(zip(('layoutSpec', 'options', 'theme'), ss[0]['cust']))
       cur.update(a[3])
       return ('OSetCustom', a[2], bool(cur['layoutSpec'] or cur['options'] or cur['theme']))
+    if a[1] == '_grist_Tables_column' and keys == {'visibleCol'} and isinstance(a[3]['visibleCol'], int) \
+       and isinstance(a[2], int):
+      return ('OSetVisible', a[2], a[3]['visibleCol'])
     if a[1] == '_grist_Pages' and keys <= {'indentation', 'pagePos'}:
       return NOMETA
     return UNMODELLED
@@ -810,7 +817,7 @@ def run_histories(ctx, nhist, nb, weights=None, seed_base=0):
         gen.after_bundle(e)
         hist.append(bundle)
         out.append(dict(history=list(hist), bundle=bundle, snaps=snaps, mid=mid, final=final,
-                        regroups=rec.last_regroups))
+                        regroups=rec.last_regroups, rounds=rec.last_rounds))
         if refs_resolve(final):
           break          # the document is inconsistent from here on: reported by search, history ends
   finally:
@@ -839,7 +846,8 @@ def case_defs(i, r, names):
   verdict = not [x for x in refs_resolve(r['final']) if x[0] not in EXTRA_KINDS]
   r['verdict'] = verdict
   metas = [coq_meta(x, names).replace('%Z', '') for x in (snaps[0], r['mid'], r['final'])]
-  return metas, core.coq_list([coq_op(o) for o in ops]).replace('%Z', ''), core.boollit(verdict)
+  return (metas, core.coq_list([coq_op(o) for o in ops]).replace('%Z', ''),
+          '(%s, %d%%nat)' % (core.boollit(verdict), r.get('rounds', 0)))
 
 
 def run_multi(ctx, name, items, checks, shard=60, timeout=300):
@@ -911,14 +919,17 @@ CHECK_STEPS_OK = 'fun c => match c with (pre, ops, mid, fin, v) => res_ok (steps
 CHECK_AUTO = ('fun c => match c with (pre, ops, mid, fin, v) => '
               'match auto_fix (fuel_of mid) mid with Ok m => meta_eqb m fin | Unmodelled => true | Fail => false end end')
 CHECK_AUTO_OK = 'fun c => match c with (pre, ops, mid, fin, v) => res_ok (auto_fix (fuel_of mid) mid) end'
-CHECK_ORACLE = 'fun c => match c with (pre, ops, mid, fin, v) => Bool.eqb (RefsResolve fin) v end'
+CHECK_ORACLE = 'fun c => match c with (pre, ops, mid, fin, v) => Bool.eqb (RefsResolve fin) (fst v) end'
+# the engine's apply_auto_removes loop and the model's make the same number of removing rounds
+CHECK_ROUNDS = ('fun c => match c with (pre, ops, mid, fin, v) => match auto_fix (fuel_of mid) mid with '
+                'Ok _ => Nat.eqb (auto_rounds (fuel_of mid) mid) (snd v) | _ => true end end')
 
 
 # ------------------------------------------------------------------------------------------------
 # the check
 
 CHECKS = [('steps', CHECK_STEPS), ('auto', CHECK_AUTO), ('oracle', CHECK_ORACLE), ('stepsok', CHECK_STEPS_OK),
-          ('autook', CHECK_AUTO_OK)]
+          ('autook', CHECK_AUTO_OK), ('rounds', CHECK_ROUNDS)]
 
 BASE_DOC = [[['AddTable', 'T', [{'id': 'A', 'type': 'Text'}, {'id': 'B', 'type': 'Text'}]]],
             [['CreateViewSection', 1, 0, 'record', [3], None]]]
@@ -1053,7 +1064,8 @@ def replay_history(history, rec=None):
         raise
       except Exception:
         return None
-      r = dict(history=history, bundle=b, snaps=snaps, mid=mid, final=final, regroups=rec.last_regroups)
+      r = dict(history=history, bundle=b, snaps=snaps, mid=mid, final=final, regroups=rec.last_regroups,
+               rounds=rec.last_rounds)
     return r
   finally:
     if own:
@@ -1096,8 +1108,11 @@ def correspond(ctx):
       ctx.bump('op ' + o[0])
     if r['mid'] != r['final']:
       ctx.bump('bundles with auto-removals')
+    if r.get('rounds', 0) >= 2:
+      ctx.bump('bundles with %d auto-removal rounds' % r['rounds'])
   for key, what in (('steps', 'model step differs from the metadata after the user actions'),
                     ('auto', 'model auto-removal loop differs from the final metadata'),
+                    ('rounds', 'number of auto-removal rounds differs between model and engine'),
                     ('oracle', 'RefsResolve in Coq on the real metadata differs from the Python oracle')):
     for i in res[key][:5]:
       ctx.broken('correspondence:%s' % what,
